@@ -151,8 +151,15 @@ fn pure_model_record(model: usize, u: &mut Uniq, k: usize) -> Value {
                 m.insert("na".into(), json!(1.0));
                 m.insert("nb".into(), json!(1.0 + (k % 4 / 2) as f64));
             }
-            if k % 5 == 0 {
+            if k % 5 == 0 || k % 5 == 3 {
                 m.insert("viscosity".into(), json!([u.val(-1.5, -0.5), u.val(-3.0, -1.0), u.val(-0.5, 0.0), u.val(-0.2, 0.0)]));
+            }
+            if k % 5 == 3 || k % 7 == 1 {
+                m.insert("diffusion".into(), json!([u.val(-0.5, 0.5), u.val(-0.5, 0.5), u.val(-0.5, 0.5), u.val(-0.1, 0.1), u.val(-0.1, 0.1)]));
+                m.insert("thermal_conductivity".into(), json!([u.val(-0.5, 0.5), u.val(-0.5, 0.5), u.val(-0.5, 0.5), u.val(-0.1, 0.1)]));
+            }
+            if k % 6 == 4 {
+                m.insert("nc".into(), json!(1.0));
             }
             Value::Object(m)
         }
@@ -187,6 +194,9 @@ fn binary_model_record(model: usize, u: &mut Uniq, k: usize) -> Value {
         0 => {
             if k % 3 == 0 {
                 json!({"k_ij": u.val(-0.05, 0.1), "kappa_ab": u.val(0.01, 0.05), "epsilon_k_ab": u.val(1500.0, 2500.0)})
+            } else if k % 3 == 1 && k % 2 == 0 {
+                // association override only (k_ij absent = 0)
+                json!({"kappa_ab": u.val(0.01, 0.05), "epsilon_k_ab": u.val(1500.0, 2500.0)})
             } else {
                 json!({"k_ij": u.val(-0.05, 0.1)})
             }
@@ -475,7 +485,22 @@ macro_rules! behave_eos {
         }
     };
 }
-behave_eos!(PcSaftParameters, PcSaft);
+impl Behave for PcSaftParameters {
+    fn behave_with(self, moles: Array1<f64>) -> Vec<f64> {
+        use feos_core::EntropyScaling;
+        let has = [self.viscosity.is_some(), self.diffusion.is_some(), self.thermal_conductivity.is_some()];
+        let eos = PcSaft::new(Arc::new(self));
+        let x = &moles / moles.sum();
+        let s = StateHD::new(350.0, 1500.0 * moles.sum(), moles);
+        let mut v = vec![eos.residual_helmholtz_energy(&s), eos.compute_max_density(&s.moles)];
+        // entropy scaling parameters only show in the correlation functions
+        // (the correlation functions panic when the coefficients are missing for a component)
+        v.push(if has[0] { eos.viscosity_correlation(-1.3, &x).unwrap_or(-2e99) } else { -1e99 });
+        v.push(if has[1] { eos.diffusion_correlation(-1.3, &x).unwrap_or(-2e99) } else { -1e99 });
+        v.push(if has[2] { eos.thermal_conductivity_correlation(-1.3, &x).unwrap_or(-2e99) } else { -1e99 });
+        v
+    }
+}
 behave_eos!(SaftVRMieParameters, SaftVRMie);
 behave_eos!(ElectrolytePcSaftParameters, ElectrolytePcSaft);
 behave_eos!(PetsParameters, Pets);
@@ -778,6 +803,10 @@ where
                     let text = serde_json::to_string(&r).unwrap();
                     out.count("op.round_trip", 1);
                     out.count("oracle.compared", 1);
+                    // every non-default field of the source record must be in the serialised record
+                    if let Some(missing) = json_missing(v, &serde_json::from_str::<Value>(&text).unwrap_or(Value::Null)) {
+                        out.violate("round-trip-field-lost", "roundtrip", format!("{}: field {missing} of the record is lost or changed by serialisation: {v} -> {text}", what("serde")));
+                    }
                     match serde_json::from_str::<PureRecord<P::Pure>>(&text) {
                         Err(e) => out.violate("round-trip-unreadable", "roundtrip", format!("{}: serialised record cannot be read back: {e}: {text}", what("serde"))),
                         Ok(r2) => {
@@ -799,6 +828,9 @@ where
                     }
                     let Ok(b) = serde_json::from_value::<P::Binary>(m.clone()) else { continue };
                     let text = serde_json::to_string(&b).unwrap();
+                    if let Some(missing) = json_missing(m, &serde_json::from_str::<Value>(&text).unwrap_or(Value::Null)) {
+                        out.violate("round-trip-field-lost", "roundtrip", format!("{}: field {missing} of the binary record is lost or changed by serialisation: {m} -> {text}", what("serde")));
+                    }
                     let pure = vec![env.uni.pure[*i].clone(), env.uni.pure[*j].clone()];
                     let recs: Vec<PureRecord<P::Pure>> = pure.iter().filter_map(|v| serde_json::from_value(v.clone()).ok()).collect();
                     if recs.len() != 2 {
@@ -824,6 +856,45 @@ where
             }
             Query::Segments { .. } | Query::Hetero { .. } => {}
         }
+    }
+}
+
+/// first path of `src` whose (non-default) value is missing from or different in `ser`
+fn json_missing(src: &Value, ser: &Value) -> Option<String> {
+    fn is_default(v: &Value) -> bool {
+        match v {
+            Value::Null => true,
+            Value::Number(n) => n.as_f64() == Some(0.0),
+            Value::Array(a) => a.iter().all(is_default),
+            Value::Object(o) => o.values().all(is_default),
+            _ => false,
+        }
+    }
+    match (src, ser) {
+        (Value::Object(a), Value::Object(b)) => {
+            for (k, x) in a {
+                if is_default(x) {
+                    continue;
+                }
+                match b.get(k) {
+                    None => return Some(k.clone()),
+                    Some(y) => {
+                        if let Some(p) = json_missing(x, y) {
+                            return Some(format!("{k}.{p}"));
+                        }
+                    }
+                }
+            }
+            None
+        }
+        (Value::Array(a), Value::Array(b)) => {
+            if a.len() != b.len() {
+                return Some("[len]".into());
+            }
+            a.iter().zip(b).enumerate().find_map(|(i, (x, y))| json_missing(x, y).map(|p| format!("[{i}].{p}")))
+        }
+        (Value::Number(x), Value::Number(y)) => (x.as_f64() != y.as_f64()).then(|| "value".to_string()),
+        (x, y) => (x != y).then(|| "value".to_string()),
     }
 }
 
@@ -1296,7 +1367,16 @@ fn execute(sc: &Scenario) -> RunOutcome {
                     // new position p holds old segment perm[p]
                     let inv: Vec<usize> = (0..segs.len()).map(|old| perm.iter().position(|x| *x == old).unwrap()).collect();
                     let nsegs: Vec<&String> = perm.iter().map(|&o| &segs[o]).collect();
-                    let bonds: Vec<[usize; 2]> = m["bonds"].as_array().unwrap().iter().map(|b| [inv[b[0].as_u64().unwrap() as usize], inv[b[1].as_u64().unwrap() as usize]]).collect();
+                    let bonds: Vec<[usize; 2]> = m["bonds"]
+                        .as_array()
+                        .unwrap()
+                        .iter()
+                        .map(|b| {
+                            let (x, y) = (inv[b[0].as_u64().unwrap() as usize], inv[b[1].as_u64().unwrap() as usize]);
+                            // a bond is an unordered pair
+                            if rng.chance(0.5) { [x, y] } else { [y, x] }
+                        })
+                        .collect();
                     json!({"identifier": m["identifier"], "segments": nsegs, "bonds": bonds})
                 })
                 .collect(),
